@@ -7,6 +7,7 @@ import (
 
 	"github.com/go-openapi/strfmt"
 
+	"verif/harness/gen"
 	"verif/harness/lib"
 )
 
@@ -57,4 +58,80 @@ func renameFormats(r *lib.Rand, node any) {
 			renameFormats(r, e)
 		}
 	}
+}
+
+// injectSwaggerish adds, to some objects of a generated instance, members which mean something in a
+// Swagger document ("headers" holding a "$ref", a "type":"array" without "items", a stray "$ref"): plain
+// schema validation has no business treating them specially.  Draws come after the pair was generated.
+func injectSwaggerish(r *lib.Rand, node any, depth int) (n int) {
+	switch t := node.(type) {
+	case map[string]any:
+		for _, k := range sortedKeysAny(t) {
+			n += injectSwaggerish(r, t[k], depth+1)
+		}
+		if r.P(0.5) {
+			switch r.Intn(4) {
+			case 0, 1:
+				t["headers"] = map[string]any{"x": map[string]any{"$ref": "#/y"}}
+			case 2:
+				t["type"] = "array"
+			default:
+				t["$ref"] = "#/definitions/nowhere"
+			}
+			n++
+		}
+	case []any:
+		for _, e := range t {
+			n += injectSwaggerish(r, e, depth+1)
+		}
+	}
+	return n
+}
+
+// closedCompositionPair builds a pair directly: a composition (oneOf / anyOf / allOf / not, possibly nested
+// under a property) whose alternatives are drawn from a few closed-object and permissive schemas, with an
+// object instance carrying Swagger-flavoured members.  The order of valid and failing alternatives varies.
+func closedCompositionPair(r *lib.Rand) (doc map[string]any, inst any) {
+	alts := []func() map[string]any{
+		func() map[string]any { return map[string]any{} },
+		func() map[string]any { return map[string]any{"additionalProperties": false} },
+		func() map[string]any {
+			return map[string]any{"additionalProperties": false, "properties": map[string]any{"headers": map[string]any{}}}
+		},
+		func() map[string]any { return map[string]any{"type": "object"} },
+		func() map[string]any { return map[string]any{"required": []any{"zz"}} },
+		func() map[string]any {
+			return map[string]any{"additionalProperties": false, "patternProperties": map[string]any{"^h": map[string]any{"type": "object"}}}
+		},
+		func() map[string]any { return map[string]any{"maxProperties": gen.I(r.Range(0, 2))} },
+	}
+	n := r.Range(2, 4)
+	list := make([]any, n)
+	for i := range list {
+		list[i] = alts[r.Intn(len(alts))]()
+	}
+	kw := r.Pick("oneOf", "oneOf", "anyOf", "allOf")
+	doc = map[string]any{kw: list}
+	if r.P(0.2) {
+		doc = map[string]any{"not": doc}
+	}
+	obj := map[string]any{}
+	if r.P(0.8) {
+		obj["headers"] = map[string]any{"x": map[string]any{"$ref": "#/y"}}
+	}
+	if r.P(0.3) {
+		obj["type"] = "array"
+	}
+	if r.P(0.3) {
+		obj["hx"] = map[string]any{"$ref": "#/y"}
+	}
+	if r.P(0.2) {
+		obj["zz"] = gen.I(1)
+	}
+	inst = obj
+	if r.P(0.3) {
+		doc = map[string]any{"properties": map[string]any{"p": doc}}
+		inst = map[string]any{"p": obj}
+	}
+	return doc, inst
 }
